@@ -110,3 +110,7 @@ func AssumeLen(s string, n int) {}
 
 // ReaderDrain returns what an io.Reader known to the engine still holds and consumes it.
 func ReaderDrain(r any) []byte { return nil }
+
+// Prefer states a soft constraint: when a violation is found the engine first looks for a model
+// that also satisfies it (so that the native replay can rebuild the scenario).
+func Prefer(c bool) {}
